@@ -1,0 +1,56 @@
+//go:build verif
+
+package fastq
+
+// Bounded stand-in for C03 (sequence/quality length mismatch is reported): a valid two-record file with the
+// sequence line or the quality line of a record emptied must give an error from some Read; no record may come back
+// with a quality string taken from another line.
+
+import (
+	"fmt"
+	"io"
+	"strings"
+	"testing"
+
+	"github.com/biogo/biogo/alphabet"
+	"github.com/biogo/biogo/seq/linear"
+)
+
+func TestVerifBounded_C03_FastqEmptiedLines(t *testing.T) {
+	cases := 0
+	for _, plus := range []string{"+", "+a"} {
+		for _, second := range []string{"@b\nGT\n+\nII\n", "@bb\nGTA\n+\nIII\n", ""} {
+			for _, which := range []string{"sequence", "quality"} {
+				for _, nl := range []string{"\n", "\r\n"} {
+					cases++
+					lines := []string{"@a", "AC", plus, "II"}
+					if which == "sequence" {
+						lines[1] = ""
+					} else {
+						lines[3] = ""
+					}
+					in := strings.Join(lines, nl) + nl + strings.Replace(second, "\n", nl, -1)
+					r := NewReader(strings.NewReader(in), linear.NewQSeq("", nil, alphabet.DNA, alphabet.Sanger))
+					sawErr := false
+					for calls := 0; calls < 20; calls++ {
+						s, err := r.Read()
+						if err == io.EOF {
+							break
+						}
+						if err != nil {
+							sawErr = true
+							break
+						}
+						if s == nil {
+							t.Fatalf("%q: nil record and nil error", in)
+						}
+					}
+					if !sawErr {
+						t.Fatalf("%q (%s line of the first record emptied): no Read reported the length mismatch", in, which)
+					}
+				}
+			}
+		}
+	}
+	fmt.Printf("BOUNDED name=C03.fastq-emptied-lines cases=%d nontrivial=%d exhaustive=true domain=%q\n", cases, cases, "a 2-letter record with its sequence or quality line emptied, followed by nothing or by a record of 2 or 3 letters, '+' line with and without the id, LF and CRLF")
+}
